@@ -89,9 +89,11 @@ package xpath
 //@ iface hash.Hash64.Write(b) result0, result1
 //@   trusted
 //@   modifies nothing
+//@   ghost buf(self) = old(buf(self)) + bytesOf(b)
 //@ iface hash.Hash64.Sum64() result
 //@   trusted
 //@   modifies nothing
+//@   ensures-assumed[fnv] result == fnv64a(buf(self))
 
 //@ iface namespaceURL.NamespaceURL() result
 //@   trusted        // a method of the client's navigator: assumed not to touch engine state
@@ -773,13 +775,39 @@ package xpath
 //@   props C15 C08 C13
 //@   inline
 //@   requires[@C15] t != nil && cb != nil
+// The node identity key (C11). getHashCode renders
+//     len(nv):nv-i0-i1-...-1     (nv = prefix+local name of an element, local name=value otherwise)
+// where i0 is the 1-based sibling index of the node, i1 that of its parent, and so on up to the
+// root, and returns the FNV-1a hash of it. nodeKey is that rendering as a specification function;
+// hkey(acc, q) appends the indices of the ancestors of q to acc (defined by the instance keyStep).
+//@ define sidx(q) = ite(kind(q) == 2 || isroot(q), 1, idx(q))
+//@ define nameval(p) = ite(kind(p) == 1, nav_prefix(p) + nav_local(p), nav_local(p) + "=" + nav_value(p))
+//@ define keyHead(p) = "" + itoa_(len(nameval(p))) + ":" + nameval(p)
+//@ define nodeKey(p) = ite(kind(p) == 0, "", hkey(keyHead(p) + "-" + itoa_(sidx(p)), p))
+//@ instance keyStep(acc, q) = hkey(acc, q) == ite(isroot(q), acc, hkey(acc + "-" + itoa_(sidx(parent(q))), parent(q)))
+//@ define sibWalk(cur, start, d) = ite(kind(start) == 2 || isroot(start), cur == start && d == 1, parent(cur) == parent(start) && !isroot(cur) && kind(cur) != 2 && 1 <= idx(cur) && d + idx(cur) == 1 + idx(start))
 //@ func getHashCode
 //@   props C15 C11 C13
+//@   mode int
 //@   requires[@C15] n != nil
 //@   modifies heap(navpos)
-//@   theory nav for C13
+//@   theory nav for C13 C11
+//@   uses tree-child tree-parent tree-depth tree-kinds
 //@   ensures[moves-own@C13] movesOnly(n)
 //@   loop * invariant[moves-own@C13] movesOnly(n)
+//@   ensures[key@C11] result == fnv64a("" + nodeKey(old(pos(n))))
+//@   loop 0 invariant[head@C11] buf(sb) == keyHead(old(pos(n))) && sibWalk(pos(n), old(pos(n)), d) && kind(old(pos(n))) != 1 && kind(old(pos(n))) != 0
+//@   loop 3 invariant[head@C11] buf(sb) == keyHead(old(pos(n))) && sibWalk(pos(n), old(pos(n)), d) && kind(old(pos(n))) == 1
+//@   loop 1 apply keyStep(buf(sb), pos(n))
+//@   loop 1 apply keyStep(buf(sb), old(pos(n)))
+//@   loop 1 apply keyStep(buf(sb), parent(at(1, pos(n))))
+//@   loop 1 invariant[path@C11] hkey(buf(sb), pos(n)) == nodeKey(old(pos(n))) && kind(old(pos(n))) != 0
+//@   loop 2 invariant[level@C11] sibWalk(pos(n), parent(at(1, pos(n))), d) && buf(sb) == at(1, buf(sb)) && !isroot(at(1, pos(n)))
+//@   loop 4 apply keyStep(buf(sb), pos(n))
+//@   loop 4 apply keyStep(buf(sb), old(pos(n)))
+//@   loop 4 apply keyStep(buf(sb), parent(at(4, pos(n))))
+//@   loop 4 invariant[path@C11] hkey(buf(sb), pos(n)) == nodeKey(old(pos(n))) && kind(old(pos(n))) != 0
+//@   loop 5 invariant[level@C11] sibWalk(pos(n), parent(at(4, pos(n))), d) && buf(sb) == at(4, buf(sb)) && !isroot(at(4, pos(n)))
 //@ func getNodePosition
 //@   props C15 C03
 //@   modifies nothing
@@ -2153,6 +2181,7 @@ package xpath
 // number, size the number of nodes of a subtree, depth the distance from the root.
 //@ axiom[tree-child] forall(p, Pos, forall(i, Int, 1 <= i && i <= nch(p) ==> parent(child(p, i)) == p && idx(child(p, i)) == i && !isroot(child(p, i)) && kind(child(p, i)) != 2 && depth(child(p, i)) == depth(p) + 1 && pre(child(p, i)) > pre(p) && pre(child(p, i)) + size(child(p, i)) <= pre(p) + size(p) && size(child(p, i)) >= 1, child(p, i)))
 //@ axiom[tree-parent] forall(p, Pos, kind(parent(p)) != 2 && (!isroot(p) && kind(p) != 2 ==> 1 <= idx(p) && idx(p) <= nch(parent(p)) && child(parent(p), idx(p)) == p), parent(p))
+//@ axiom[tree-kinds] forall(p, Pos, 0 <= kind(p) && kind(p) <= 4 && (kind(p) == 0) == isroot(p) && nch(p) < 1073741824, kind(p))
 //@ axiom[tree-depth] forall(p, Pos, 0 <= depth(p) && depth(p) < 1073741824 && size(p) >= 1 && nch(p) >= 0 && isroot(p) == (depth(p) == 0), depth(p))
 //@ define walkerOK(level, p) = 0 <= level && level <= depth(p) && (level > 0 ==> kind(p) != 2 && !isroot(p))
 //@ instance sibOrder(q, i) = 1 <= i && i < nch(q) ==> pre(child(q, i + 1)) == pre(child(q, i)) + size(child(q, i))
